@@ -812,7 +812,7 @@ func Run(c *fw.Ctx) {
 	c.Assume("a crash image contains, per file, its fsynced content plus (M2) a prefix of the later writes; arbitrary subsets of un-fsynced writes are not generated (the property quantifies over per-file prefixes)")
 	c.Assume("directory entries become durable at the directory fsync that follows (strict POSIX); M0 keeps every issued write")
 	r := c.Rand("c03/traces")
-	ntr := c.N(3, 16)
+	ntr := c.N(3, 8)
 	if v := os.Getenv("VERIF_C03_TRACES"); v != "" {
 		fmt.Sscan(v, &ntr) // development aid
 	}
